@@ -121,11 +121,18 @@ class Explorer:
         self.eng = engine(ctx)
         self.fa = self.eng.fa[f.qual]
         self.pair_mentions: Dict[tuple, Set[str]] = {}
+        # value numbering of the compared quantities: a local that holds the result of a pure package function
+        # (`sbgnrm = projgr(x, grad, lb, ub)`) is compared as that call, so that what is learnt about it is shared with
+        # the other tests of the same quantity and dies when one of the arguments changes
+        from ..flow import Expander
+        self._exp = Expander(ctx, f, only=lambda v: isinstance(v, ast.Call) and isinstance(v.func, ast.Name)
+                             and ctx.repo.resolve_callee(f, v) in ctx.repo.funcs)
+        self._canon: Dict[int, ast.AST] = {}
         for n in self.cfg.nodes:
             if n.kind == "test":
-                at = compare_atom(n.ast)
+                at = compare_atom(self.canon(n))
                 if at:
-                    e = n.ast
+                    e = self.canon(n)
                     self.pair_mentions[at[0]] = mentions(e.left) | mentions(e.comparators[0])
         self.mut_at: Dict[Node, Set[str]] = {}
         for m in self.fa.mutations:
@@ -140,6 +147,22 @@ class Explorer:
                     keys = {f"{m.target}.{a}" for a in aw}
             self.mut_at.setdefault(m.node, set()).update(keys)
         self.at: Dict[Node, Set[St]] = {}
+
+    def canon(self, n: Node) -> ast.AST:
+        e = n.ast
+        if id(n) in self._canon:
+            return self._canon[id(n)]
+        r = e
+        if isinstance(e, ast.Compare) and len(e.ops) == 1 and type(e.ops[0]) in OPS:
+            try:
+                l2 = self._exp.expand(n, e.left, 3) if isinstance(e.left, ast.Name) else e.left
+                r2 = self._exp.expand(n, e.comparators[0], 3) if isinstance(e.comparators[0], ast.Name) else e.comparators[0]
+                if l2 is not e.left or r2 is not e.comparators[0]:
+                    r = ast.copy_location(ast.Compare(left=l2, ops=e.ops, comparators=[r2]), e)
+            except Exception:
+                r = e
+        self._canon[id(n)] = r
+        return r
 
     def defaults(self) -> Tuple[str, Optional[bool]]:
         cls = None
@@ -165,7 +188,7 @@ class Explorer:
         outs: List[Tuple[object, St]] = []
         if n.kind == "test":
             e = s
-            at = compare_atom(e)
+            at = compare_atom(self.canon(n))
             d = dotted(e)
             if at:
                 pair, o = at
@@ -228,8 +251,9 @@ class Explorer:
                             st2 = st2.with_(task=f"<param:{v.id}>")
                         else:
                             st2 = st2.with_(task="<non-constant>")
-                    elif isinstance(t, ast.Name) and isinstance(s.value, ast.Constant) and (isinstance(s.value.value, str) or s.value.value is None):
-                        st2 = st2.set_svar(t.id, s.value.value)
+                    elif isinstance(t, ast.Name) and isinstance(s.value, ast.Constant) and \
+                            (isinstance(s.value.value, (str, bool)) or s.value.value is None):
+                        st2 = st2.set_svar(t.id, s.value.value)      # message variables and boolean verdict flags
                     elif isinstance(t, ast.Name) and st2.svar(t.id) != "<unknown>":
                         st2 = st2.with_(sv=frozenset((k, v) for k, v in st2.sv if k != t.id))
                     elif d == f"{self.istate}.is_success":
@@ -354,6 +378,8 @@ def helper_summaries(ctx: Ctx) -> Dict[str, list]:
                     for st in at.get(rn, ()):
                         v = rn.ast.value
                         ret = v.value if isinstance(v, ast.Constant) else None
+                        if isinstance(v, ast.Name) and isinstance(st.svar(v.id), bool):
+                            ret = st.svar(v.id)         # `flag = False ... flag = True ... return flag`
                         facts = set()
                         for (a, b), o in st.know:
                             if a in f.params and b in f.params:
